@@ -80,10 +80,11 @@ Terms == { EvC([P0 EXCEPT !.t = "DISCONNECT"]), EvT("Shutdown", 0), EvT("BEof", 
 Others == { EvC([P0 EXCEPT !.t = "SEARCHGW"]), EvC([P0 EXCEPT !.t = "WILLTOPICUPD", !.topic = "wt"]),
             EvC([P0 EXCEPT !.t = "CONNACK"]), EvC([P0 EXCEPT !.t = "SUBACK", !.mid = 1]) }
 Registers ==
-    {EvC([P0 EXCEPT !.t = "REGISTER", !.mid = m, !.topic = n, !.wild = Attr(n).wild]) : m \in MsgIds, n \in Names \cup {"w/#"}}
+    \* "pre/x", "own/z": names that are also predefined for this client
+    {EvC([P0 EXCEPT !.t = "REGISTER", !.mid = m, !.topic = n, !.wild = Attr(n).wild]) : m \in MsgIds, n \in Names \cup {"w/#", "pre/x", "own/z"}}
 Subscribes ==
     {EvC([P0 EXCEPT !.t = "SUBSCRIBE", !.mid = m, !.qos = q, !.tit = 0, !.topic = n, !.wild = Attr(n).wild, !.dup = d])
-       : m \in MsgIds, q \in {1, 3}, n \in {"a/b"} \cup WildNames, d \in BOOLEAN}
+       : m \in MsgIds, q \in {1, 3}, n \in {"a/b", "pre/x"} \cup WildNames, d \in BOOLEAN}
     \cup {EvC([P0 EXCEPT !.t = "SUBSCRIBE", !.mid = m, !.qos = 0, !.tit = 1, !.tid = i]) : m \in MsgIds, i \in {5, 6, 9}}
     \cup {EvC([P0 EXCEPT !.t = "SUBSCRIBE", !.mid = m, !.qos = 2, !.tit = 2, !.tid = ShortId("ab"), !.sname = "ab"]) : m \in MsgIds}
 Unsubscribes ==
